@@ -874,7 +874,9 @@ func (app *App) calcActiveNodes(clusterState, clusterStateDcs map[string]*nodest
 			continue
 		}
 		if !node.PingOk {
-			if node.PingDubious || clusterStateDcs[host].PingOk {
+			// the host may have no health record in DCS yet (or no more)
+			dcsState := clusterStateDcs[host]
+			if node.PingDubious || (dcsState != nil && dcsState.PingOk) {
 				// we can't rely on ping and slave status if ping was dubious
 				if slices.Contains(oldActiveNodes, host) {
 					app.logger.Warn().Msgf("calc active nodes: %s is dubious or keep health lock in dcs, keeping active...", host)
